@@ -1062,7 +1062,7 @@ class unyt_array(np.ndarray):
         else:
             v = self.in_units(units, equivalence=equivalence, **kwargs).value
         if isinstance(self, unyt_quantity):
-            return float(v)
+            return complex(v) if v.dtype.kind == "c" else float(v)
         else:
             return v
 
